@@ -262,8 +262,16 @@ class Publish:
         # we use the servermap to populate the initial goal: this way we will
         # try to update each existing share in place. Since we're
         # updating, we ignore damaged and missing shares -- callers must
-        # do a repair to repair and recreate these.
-        self.goal = set(self._servermap.get_known_shares())
+        # do a repair to repair and recreate these. Only the shares of the
+        # version we are updating can be updated in place: writing the
+        # changed segments and the new hash trees on top of a share of
+        # some other version would yield a share of no version at all.
+        self.goal = set(key for (key, (verinfo, timestamp))
+                        in self._servermap.get_known_shares().items()
+                        if verinfo == version)
+        if not self.goal:
+            raise NotEnoughServersError("no shares of the version to "
+                                        "update are known")
 
         # shnum -> set of IMutableSlotWriter
         self.writers = DictOfSets()
